@@ -49,7 +49,7 @@ def run(ck):
     for c in range(0, len(recs), chunk):
         w = irgov_util.decide_apalache(ck, recs[c:c + chunk], SIG,
                                        "real Fixed8Converter returned a wrapped / sign-changed value for an amount below 2^53",
-                                       lambda r: {"p": r["p"], "n": r["n"]})
+                                       lambda r: {"p": r["p"], "n": r["n"]}, known_asis=(world == "as-is"))
         if w != "repaired":
             world = w
         if w == "violation":
